@@ -1,7 +1,7 @@
 #!/bin/bash
 # usage: take_quiet.sh <Cxx>: validates /tmp/mut/out_<Cxx>q/quiet{1,2,3}.diff into seeded/quiet/<Cxx>-q<k>/ and removes the worktree
 cd /verif
-p=$1; src=/tmp/mut/out_${p}q
+p=$1; src=/tmp/mut/out_${p}q; export QUIET_REUSE_TESTS=1
 git -C /repo worktree remove --force /tmp/mut/wt_${p}q 2>/dev/null
 mkdir -p seeded/quiet/pending/$p; cp $src/notes.md seeded/quiet/pending/$p/notes.md 2>/dev/null; cp $src/demo.py seeded/quiet/pending/$p/demo.py 2>/dev/null; cp $src/*.json seeded/quiet/pending/$p/ 2>/dev/null
 for k in 1 2 3; do
